@@ -15,7 +15,7 @@ def scenarios(pid, quick, rng):
         S.append(dict(name="rebuild-under-writer", rf=3, steps=syslib.rebuild_under_writer(3, snaps=2)))
         S.append(dict(name="rebuild-with-failing-copy", rf=3, steps=syslib.rebuild_with_failing_copy(3)))
         if not quick:
-            for i in range(5):
+            for i in range(12):
                 S.append(dict(name="rebuild-interrupted-%d" % i, rf=3,
                               steps=syslib.rebuild_under_writer(3, kill_ms=rng.choice([300, 900, 2500, 5000, 8000]), snaps=rng.randint(0, 3),
                                                                 pre_writes=rng.randint(5, 120))))
@@ -25,7 +25,7 @@ def scenarios(pid, quick, rng):
         S.append(dict(name="clone-of-snapshot", rf=1, steps=syslib.clone_scenario()))
         S.append(dict(name="clone-with-stalled-source", rf=1, steps=syslib.clone_with_stalled_source()))
         if not quick:
-            for i in range(3):
+            for i in range(6):
                 S.append(dict(name="clone-again-%d" % i, rf=1, steps=syslib.clone_scenario()))
     return S
 
@@ -83,8 +83,9 @@ def main(ctx, replay=None):
     res, couts = ctllib.run_cases(ctx, binpath, ccases, tag="ctlhalf")
     cbad, _ = ctllib.parse_bad(res)
     ctl_diffs = [b for b in cbad if b["field"]]
-    # oracles relevant to the control half: C04 (reader is RW), C18 (one rebuilder), C05
-    ctl_oracle = [b for b in cbad if set(b["fails"]) & {"C04", "C18", "C05"}]
+    # oracles relevant to the control half: C07 (promotion only by a successful verify, chain and counter equal),
+    # C04 (reader is RW), C18 (one rebuilder), C05
+    ctl_oracle = [b for b in cbad if set(b["fails"]) & {"C04", "C18", "C05", "C07"}]
 
     # data half: whole-system scenarios
     S = scenarios(pid, quick, ctx.rng)
